@@ -319,6 +319,9 @@ impl World {
     /// What a healthy `--format` run produces from `text` with the formatter this plan selects; None if the real
     /// rustfmt refuses the text (then nothing can be said about such a step).
     fn formatted(&self, text: &str, plan: &Plan) -> Option<String> {
+        if plan.rustfmt == "crlf" {
+            return Some(pretty::pretty(text).replace('\n', "\r\n"));
+        }
         if plan.rustfmt != "real" || self.real_dir.is_none() {
             return Some(pretty::pretty(text));
         }
@@ -420,7 +423,7 @@ fn model_equal(file: &[u8], expected: &str) -> bool {
 }
 
 fn hard_rules(plan: &Plan, fmt: bool) -> bool {
-    plan.rules.iter().any(|r| r.contains(":EIO") || r.contains(":ENOSPC") || r.contains(":EACCES")) || (fmt && plan.rustfmt != "pass" && plan.rustfmt != "real")
+    plan.rules.iter().any(|r| r.contains(":EIO") || r.contains(":ENOSPC") || r.contains(":EACCES")) || (fmt && plan.rustfmt != "pass" && plan.rustfmt != "real" && plan.rustfmt != "crlf")
 }
 
 fn count_faults(log: &[String], stats: &mut Stats) {
@@ -821,6 +824,9 @@ fn gen_plan(rng: &mut Rng, kind: u8, faults: bool) -> Plan {
             rustfmt = rng.pick(&["fail", "nonutf8", "missing", "killed", "killedpartial"]).to_string();
         } else if REAL_RUSTFMT.load(std::sync::atomic::Ordering::Relaxed) && rng.chance(1, 3) {
             rustfmt = "real".to_string();
+        } else if rng.chance(1, 5) {
+            // a healthy formatter that writes CRLF line endings (newline_style = "Windows")
+            rustfmt = "crlf".to_string();
         }
     } else if rng.chance(1, 4) {
         // C16 histories inject no I/O faults, but the formatter child is part of the environment the output must not depend
@@ -857,7 +863,7 @@ fn gen_scenario(rng: &mut Rng, defs: &[Definition], index: u64, faults: bool) ->
         let with_faults = rng.chance(1, 3);
         let fmt = if rng.chance(1, 6) { !motif_fmt } else { motif_fmt };
         let mut plan = gen_plan(rng, 1, with_faults);
-        if !with_faults { plan.rustfmt = "pass".into(); }
+        if !with_faults { plan.rustfmt = if rng.chance(1, 4) { "crlf".into() } else { "pass".into() }; }
         steps.push(Step::Check { fmt, plan });
     }
     for _ in 0..n {
